@@ -25,9 +25,23 @@ def main():
     ap.add_argument("--seed", type=int, default=0)
     ap.add_argument("--replay")
     a = ap.parse_args()
-    mod = importlib.import_module("native.p" + a.pid[1:])
-    out = {"rule": mod.RULE, "bound": mod.BOUND.get(a.tier, ""), "evaluations": 0, "distinct_nontrivial": 0,
+    try:
+        mod = importlib.import_module("native.p" + a.pid[1:])
+    except ModuleNotFoundError:
+        if not a.replay:
+            raise
+        mod = None
+    out = {"rule": getattr(mod, "RULE", ""), "bound": getattr(mod, "BOUND", {}).get(a.tier, ""), "evaluations": 0, "distinct_nontrivial": 0,
            "violations": [], "samples": [], "exhaustive": getattr(mod, "EXHAUSTIVE", False), "sections": {}, "stale_known": []}
+    if a.replay and json.load(open(a.replay)).get("kind") == "obligation":
+        from native import contract_replay
+        d = json.load(open(a.replay))
+        viols, notes = contract_replay.replay(d)
+        out["evaluations"] = 1
+        out["violations"] = viols
+        out["notes"] = notes
+        print(json.dumps(out, default=str))
+        return
     if a.replay:
         d = json.load(open(a.replay))
         fn = mod.CHECKS[d["check"]]
